@@ -1,8 +1,8 @@
-\* negative control: the printer exactly as query.go has it must FAIL the round-trip law
-\* (TLC finds `. . [ . ]`; with Profile = "modules", MaxLen = 5 it finds `import "" as a ;`)
+\* negative control: with the deviation "dotBracket" switched on the printer must FAIL the round-trip law
+\* (TLC finds `. . [ .a ]`)
 SPECIFICATION Spec
 CONSTANTS
   Profile = "terms"
   MaxLen = 5
-INVARIANTS RoundTripStrict
+INVARIANTS NegDotBracket
 CHECK_DEADLOCK FALSE
